@@ -102,7 +102,12 @@ class TokenFile:
         try:
             self.path = path
             with path.open("rt") as fp:
-                count, self.uri = [line.strip() for line in fp.readlines()]
+                # First line: the amount; the rest is the job path (which may
+                # itself contain a newline)
+                count, uri = fp.read().split("\n", 1)
+                self.uri = uri[:-1] if uri.endswith("\n") else uri
+                if not self.uri:
+                    raise ValueError("No job path in the token file")
                 self.count = int(count)
         except Exception:
             logging.exception("Error while reading %s", self.path)
